@@ -62,6 +62,7 @@ type HistCfg struct {
 	ReadBackCommit    bool // after a successful commit: `log -n 2` and `cat-file -p <commit>`
 	NoDerive          bool // no command-model correspondence lines (the repository is being damaged on purpose)
 	JunkSweep         bool // every 8th history ends with the whole table of malformed invocations
+	LongChain         bool // every 10th history ends with a chain of 33..45 more commits and `log -n` at, just below and above its length
 	StatusAfterCommit bool // `status` right after a successful commit must list nothing staged
 	CommitFirst       bool // start with one commit
 	FreshPct          int  // percent of cases that start without any commit (default 15 via histCheck)
@@ -1606,6 +1607,18 @@ func runHistCase(ctx *Ctx, cfg *HistCfg, r *rng, idx int) (Case, []string, []Fin
 	}
 	// every 8th hostile history ends with the whole table of malformed invocations, in a rotated order, so
 	// that each of them meets several reachable states in every run
+	if cfg.LongChain && idx%10 == 3 {
+		// a chain longer than any fixed small bound a walk might have (32, 40): `log -n k` lists min(k, length) commits
+		k := 33 + r.intn(13)
+		for j := 0; j < k; j++ {
+			h.W("write", "chain.txt", []byte(fmt.Sprintf("link %d\n", j)))
+			h.X(0, "add", "chain.txt")
+			h.X(0, "commit", "-m", fmt.Sprintf("link %d", j))
+		}
+		for _, n := range []int{k, k - 1, k + 1, 32, 33, 50, 64, 65} {
+			h.X(0, "log", "-n", fmt.Sprintf("%d", n))
+		}
+	}
 	if cfg.JunkSweep && idx%8 == 0 {
 		cands := junkCands()
 		off := r.intn(len(cands))
